@@ -1018,4 +1018,182 @@ example : keyAuth vTok ⟨cfgDemo.sources, .retNil, true⟩ [[], []] = some ⟨t
 example : parseLookups "headers:X-Api-Key".toList [] = some [] := by decide
 example : keyAuth vTok ⟨[], .absent, false⟩ [] = none := by decide
 
+
+/-! ## round 4: the whole closures (Skipper first), the convenience constructors, `CreateExtractors` -/
+
+/-- **C13_basic_mw_sound** — through the complete BasicAuth middleware the handler runs only when
+    the configured Skipper took the request out of the middleware, or the validator said yes to the
+    literally decoded credentials (conclusion of `C13_basic_sound`). -/
+theorem C13_basic_mw_sound (skip : Bool) (V : Str → Str → Outcome) (dec : Str → Option Str)
+    (hdrs : List Str) (o : BObs) (h : basicAuthMW skip V dec hdrs = some o) (hr : o.ran = true) :
+    skip = true ∨
+    ∃ auth u p, hdrs.head? = some auth ∧ Guard auth ∧ dec (auth.drop 6) = some (u ++ ':' :: p) ∧
+      ':' ∉ u ∧ V u p = .yes ∧ o.calls = [(u, p)] ∧ o.status = 200 := by
+  cases skip with
+  | true => exact Or.inl rfl
+  | false =>
+    right
+    have h' : basicAuth V dec hdrs = some o := by simpa [basicAuthMW] using h
+    exact C13_basic_sound V dec hdrs o h' hr
+
+/-- **C13_basic_mw_skip** — a skipped request reaches the handler and the validator is not asked;
+    an unskipped one is exactly `basicAuth` (so every earlier theorem applies), and the closure never
+    panics. -/
+theorem C13_basic_mw_skip (skip : Bool) (V : Str → Str → Outcome) (dec : Str → Option Str) (hdrs : List Str) :
+    (skip = true → basicAuthMW skip V dec hdrs = some ⟨true, 200, false, []⟩) ∧
+    (skip = false → basicAuthMW skip V dec hdrs = basicAuth V dec hdrs) ∧
+    basicAuthMW skip V dec hdrs ≠ none := by
+  refine ⟨fun hs => by simp [basicAuthMW, hs], fun hs => by simp [basicAuthMW, hs], ?_⟩
+  cases skip with
+  | true => simp [basicAuthMW]
+  | false => simpa [basicAuthMW] using C13_basic_no_panic V dec hdrs
+
+/-- **C13_basic_mw_calls_literal** — also through the complete closure every validator call is
+    with the decoded text of the first header value split at its first colon (nothing trimmed,
+    folded or re-encoded in between). -/
+theorem C13_basic_mw_calls_literal (skip : Bool) (V : Str → Str → Outcome) (dec : Str → Option Str)
+    (hdrs : List Str) (o : BObs) (h : basicAuthMW skip V dec hdrs = some o) :
+    ∀ c ∈ o.calls, ∃ auth, hdrs.head? = some auth ∧ dec (auth.drop 6) = some (c.1 ++ ':' :: c.2) ∧ ':' ∉ c.1 := by
+  cases skip with
+  | true =>
+    have : o = ⟨true, 200, false, []⟩ := by simpa [basicAuthMW] using h.symm
+    subst this; intro c hc; simp at hc
+  | false =>
+    have h' : basicAuth V dec hdrs = some o := by simpa [basicAuthMW] using h
+    intro c hc
+    obtain ⟨o', ho', hcase⟩ := C13_basic_decision V dec hdrs
+    rw [h'] at ho'; cases ho'
+    rcases hcase with ⟨_, rfl⟩ | ⟨_, _, rfl⟩ | ⟨_, _, _, _, rfl⟩ | ⟨hg, u, p, hd, hu, hv⟩
+    · simp [unauthorized] at hc
+    · simp at hc
+    · simp [unauthorized] at hc
+    · have hcalls : o.calls = [(u, p)] := by
+        rcases hv with ⟨_, rfl⟩ | ⟨_, rfl⟩ | ⟨e, _, rfl⟩ <;> simp [unauthorized]
+      rw [hcalls] at hc
+      have : c = (u, p) := by simpa using hc
+      subst this
+      cases hdrs with
+      | nil => simp [Guard] at hg
+      | cons a r => exact ⟨a, rfl, hd, hu⟩
+
+/-- **C13_www_value** — the challenge of a 401 names the default realm as the bare word
+    `Restricted` exactly when the configured realm is empty or that word (so for `BasicAuth(fn)`);
+    any other realm appears only in its quoted form. -/
+theorem C13_www_value (realm quoted : Str) :
+    ((realm = [] ∨ realm = defaultRealm) → wwwValue realm quoted = "basic realm=Restricted".toList) ∧
+    ((realm ≠ [] ∧ realm ≠ defaultRealm) → wwwValue realm quoted = "basic realm=".toList ++ quoted) := by
+  constructor
+  · intro h
+    have e : "basic realm=".toList ++ defaultRealm = "basic realm=Restricted".toList := by decide
+    unfold wwwValue; rw [if_pos h]; exact e
+  · intro h
+    have : ¬ (realm = [] ∨ realm = defaultRealm) := by
+      intro h'; rcases h' with h' | h'
+      · exact h.1 h'
+      · exact h.2 h'
+    unfold wwwValue; rw [if_neg this]
+
+/-- **C13_key_mw_sound** — through the complete KeyAuth middleware the handler runs only when the
+    Skipper took the request out, the validator said yes to a key literally present at a configured
+    location, or the documented `ContinueOnIgnoredError` opt-in applies. -/
+theorem C13_key_mw_sound (skip : Bool) (V : Str → Outcome) (cfg : KCfg) (data : List (List (Str × Str)))
+    (o : KObs) (h : keyAuthMW skip V cfg data = some o) (hr : o.ran = true) :
+    skip = true ∨
+    (∃ k, o.calls.getLast? = some k ∧ V k = .yes ∧ Present cfg data k) ∨
+    (cfg.cont = true ∧ cfg.eh = .retNil ∧ ∀ k ∈ o.calls, V k ≠ .yes) := by
+  cases skip with
+  | true => exact Or.inl rfl
+  | false =>
+    right
+    have h' : keyAuth V cfg data = some o := by simpa [keyAuthMW] using h
+    exact C13_key_sound V cfg data o h' hr
+
+/-- **C13_key_mw_skip** — a skipped request reaches the handler with no extractor and no validator
+    involved (in particular the configuration-only panic of `C13_key_panic_iff` cannot happen for
+    it); an unskipped one is exactly `keyAuth`. -/
+theorem C13_key_mw_skip (skip : Bool) (V : Str → Outcome) (cfg : KCfg) (data : List (List (Str × Str))) :
+    (skip = true → keyAuthMW skip V cfg data = some ⟨true, 200, 0, []⟩) ∧
+    (skip = false → keyAuthMW skip V cfg data = keyAuth V cfg data) := by
+  exact ⟨fun hs => by simp [keyAuthMW, hs], fun hs => by simp [keyAuthMW, hs]⟩
+
+/-- **C13_key_ctor_default** — `KeyAuth(fn)` looks at exactly one place, the `Authorization` header
+    with the cut-prefix `Bearer ` (scheme plus the appended space), has no ErrorHandler and no
+    opt-in; `KeyAuthWithConfig` with empty `KeyLookup` / `AuthScheme` builds the same extractor. -/
+theorem C13_key_ctor_default :
+    keyCtorCfg = some ⟨[⟨.header, authorizationLit, "Bearer ".toList⟩], .absent, false⟩ ∧
+    parseLookups [] [] = parseLookups defaultLookup defaultScheme := by
+  constructor <;> decide
+
+/-- **C13_key_ctor_sound** — hence behind `KeyAuth(fn)` the handler runs only for a request whose
+    last validated key was approved and is the text after a case-insensitively matched `Bearer `
+    prefix of one of its `Authorization` values (no opt-in exists for this constructor). -/
+theorem C13_key_ctor_sound (V : Str → Outcome) (cfg : KCfg) (hc : keyCtorCfg = some cfg)
+    (vals : List (Str × Str)) (o : KObs) (h : keyAuth V cfg [vals] = some o) (hr : o.ran = true) :
+    ∃ k nv, o.calls.getLast? = some k ∧ V k = .yes ∧ nv ∈ vals ∧ hdrKey "Bearer ".toList nv.2 = some k := by
+  have hcfg : cfg = ⟨[⟨.header, authorizationLit, "Bearer ".toList⟩], .absent, false⟩ := by
+    have := C13_key_ctor_default.1
+    rw [hc] at this
+    exact Option.some.inj this
+  subst hcfg
+  rcases C13_key_sound V _ [vals] o h hr with ⟨k, hl, hv, sd, hsd, nv, hnv, hk⟩ | ⟨hcont, _, _⟩
+  · have : sd = (⟨.header, authorizationLit, "Bearer ".toList⟩, vals) := by simpa using hsd
+    subst this
+    exact ⟨k, nv, hl, hv, hnv, by simpa [keyOf] using hk⟩
+  · simp at hcont
+
+/-- **C13_createExtractors_empty** — the exported `CreateExtractors("")` builds no extractor and
+    reports no error (extractor.go:51-53), whereas the KeyAuth constructors never reach that branch:
+    an empty `KeyLookup` is replaced by the default before. -/
+theorem C13_createExtractors_empty (scheme : Str) :
+    createExtractors [] scheme = some [] ∧
+    (∀ lookups, parseLookups lookups scheme =
+      createExtractors (if lookups = [] then defaultLookup else lookups)
+        (if scheme = [] then defaultScheme else scheme)) ∧
+    (∀ lookups, (if lookups = [] then defaultLookup else lookups) ≠ []) := by
+  refine ⟨by simp [createExtractors], fun _ => rfl, fun lookups => ?_⟩
+  by_cases hl : lookups = []
+  · simp only [hl, if_true]; decide
+  · simp only [hl, if_false]; exact hl
+
+/-- **C13_header_missing_only_without_values** — the statement `return nil,
+    errHeaderExtractorValueMissing` behind the loop of `valuesFromHeader` (extractor.go:128) is dead:
+    without a cut-prefix every value is returned, so the header extractor reports "missing" only
+    when the header has no value at all. -/
+theorem C13_header_missing_only_without_values (name : Str) (d : List (Str × Str))
+    (h : extract ⟨.header, name, []⟩ d = .fail .headerMissing) : d = [] := by
+  cases d with
+  | nil => rfl
+  | cons a r =>
+    exfalso
+    rcases extract_spec ⟨.header, name, []⟩ (a :: r) with ⟨e, _, hk⟩ | ⟨hk, _⟩
+    · have : keysOf ⟨.header, name, []⟩ (a :: r) ≠ [] := by
+        simp [keysOf, limLoop, hdrKey]
+        split <;> simp
+      exact this hk
+    · rw [hk] at h; cases h
+
+/-- **C13_param_limit** — `valuesFromParam` stops after a matching parameter at index ≥ 19: on a
+    route with 22 parameters of which indices 0, 5, 18-21 carry the looked-up name, the values at
+    20 and 21 are never offered to the validator (a key there is outside "the first 20 values"). -/
+example :
+    let names : List Str := (List.range 22).map fun i => if i ∈ [0, 5, 18, 19, 20, 21] then "key".toList else "o".toList
+    let d := names.zip ((List.range 22).map fun i => [Char.ofNat (97 + i)])
+    extract ⟨.param, "key".toList, []⟩ d = .keys [['a'], ['f'], ['s'], ['t']] := by decide
+
+-- non-vacuity of the round-4 statements
+example : basicAuthMW true vJoe b64decode [] = some ⟨true, 200, false, []⟩ ∧
+    basicAuthMW false vJoe b64decode [] = some (unauthorized []) := by decide
+-- the trailing line feed of `echo joe:pw:x | base64` belongs to the password: refused, literally
+example : basicAuthMW false vJoe b64decode ["Basic am9lOnB3OngK".toList]
+    = some (unauthorized [("joe".toList, "pw:x\n".toList)]) := by decide
+example : wwwValue "My \"Realm\"".toList "\"My \\\"Realm\\\"\"".toList = "basic realm=\"My \\\"Realm\\\"\"".toList ∧
+    wwwValue [] "\"\"".toList = "basic realm=Restricted".toList := by decide
+example : ∃ cfg, keyCtorCfg = some cfg ∧
+    keyAuth vTok cfg [[("Authorization".toList, "bearer tok".toList)]] = some ⟨true, 200, 0, ["tok".toList]⟩ ∧
+    keyAuth vTok cfg [[("Authorization".toList, "Token tok".toList)]] = some ⟨false, 400, 0, []⟩ :=
+  ⟨_, rfl, by decide, by decide⟩
+example : keyAuthMW true vTok ⟨[], .absent, false⟩ [] = some ⟨true, 200, 0, []⟩ ∧
+    keyAuthMW false vTok ⟨[], .absent, false⟩ [] = none := by decide
+example : createExtractors "header:Authorization".toList [] = some [⟨.header, authorizationLit, []⟩] := by decide
+
 end C13
